@@ -16,6 +16,7 @@ import (
 	"context"
 	"encoding/hex"
 	"encoding/json"
+	"errors"
 	"flag"
 	"fmt"
 	"io"
@@ -132,6 +133,72 @@ func opDecodeForce(t byte, b []byte) op {
 		}
 		return
 	}, fmt.Sprintf("L %d %s", t, hx(b))}
+}
+
+var errAbandon = errors.New("abandoned")
+
+// abandonWalk visits w the way generated readers do (`err := l.ForEach(...); l.Close()` on
+// every container) and gives up with an error after *budget leaves.
+func abandonWalk(w wire.Value, budget *int) error {
+	switch w.Type() {
+	case wire.TStruct:
+		for _, f := range w.GetStruct().Fields {
+			if err := abandonWalk(f.Value, budget); err != nil {
+				return err
+			}
+		}
+		return nil
+	case wire.TList, wire.TSet:
+		l := w.GetList
+		if w.Type() == wire.TSet {
+			l = w.GetSet
+		}
+		vl := l()
+		err := vl.ForEach(func(x wire.Value) error { return abandonWalk(x, budget) })
+		vl.Close()
+		return err
+	case wire.TMap:
+		ml := w.GetMap()
+		err := ml.ForEach(func(it wire.MapItem) error {
+			if err := abandonWalk(it.Key, budget); err != nil {
+				return err
+			}
+			return abandonWalk(it.Value, budget)
+		})
+		ml.Close()
+		return err
+	}
+	if *budget <= 0 {
+		return errAbandon
+	}
+	*budget--
+	return nil
+}
+
+// opDecodeAbandon decodes and then walks the value like a generated FromWire that rejects
+// something half-way (a callback error inside ForEach, followed by the reader's Close).
+func opDecodeAbandon(t byte, b []byte, budget int) op {
+	return op{"Decode+abandoned walk", func() (res string) {
+		if p := safely(func() {
+			w, err := binary.Default.Decode(bytes.NewReader(b), wire.Type(t))
+			if err != nil {
+				res = "err"
+				return
+			}
+			left := budget
+			switch err := abandonWalk(w, &left); err {
+			case nil:
+				res = fmt.Sprintf("walked, %d left", left)
+			case errAbandon:
+				res = "abandoned"
+			default:
+				res = "err"
+			}
+		}); p != "" {
+			return "panic " + p
+		}
+		return
+	}, ""}
 }
 
 type posReader struct {
@@ -564,6 +631,10 @@ func randomOps(r *rng.R, k int) []op {
 			}
 		case 6:
 			v := wv.Gen(r, t, cfg, 0)
+			if r.Bool() {
+				ops = append(ops, opDecodeAbandon(t, v.Encode(nil), r.Intn(1+v.Nodes())))
+				continue
+			}
 			ops = append(ops, opSkip(r.Bool(), t, v.Encode(nil)))
 		case 4, 5:
 			body := wv.Gen(r, wv.TStruct, cfg, 0)
